@@ -223,7 +223,9 @@ func mayReturnFn(info *types.Info) func(*ast.CallExpr) bool {
 		}
 		if f := calleeOf(info, call); f != nil {
 			switch shortName(f) {
-			case "internal/runtime.fatal", "internal/runtime.throw", "internal/runtime.panicmakeslicelen", "internal/runtime.panicmakeslicecap",
+			// NOTE: runtime.fatal and runtime.throw only print and RETURN in this tree (stubs.go), so they are
+			// deliberately not listed: the paths after them are real.
+			case "internal/runtime.panicmakeslicelen", "internal/runtime.panicmakeslicecap",
 				"internal/runtime.panicunsafeslicelen", "internal/runtime.panicunsafeslicenilptr",
 				"internal/clite.Siglongjmp", "internal/clite.Longjmp", "internal/clite.Exit", "internal/clite/pthread.Exit",
 				"os.Exit", "log.Fatal", "log.Fatalf", "log.Panicf", "log.Panic", "log.Panicln", "log.Fatalln":
